@@ -568,6 +568,10 @@ class PipeFunc(Generic[T]):
                     " should be a parameter of the function."
                 )
                 raise ValueError(msg) from e
+        output_names = at_least_tuple(self.output_name)
+        if len(set(output_names)) != len(output_names):
+            msg = f"The `output_name` contains duplicate names: {self.output_name}."
+            raise ValueError(msg)
         if overlap := set(self.parameters) & set(at_least_tuple(self.output_name)):
             msg = (
                 "The `output_name` cannot be the same as any of the input"
